@@ -18,6 +18,11 @@ CLAIMED = {
 CLAIMED['C08'] = ('other', 'bounded symbolic execution: the one-step kinematic law (move iff target in grid and non-blocking, turns rotate and never displace, nothing else changes the pose except teleport from a telepod) and one-step preservation of "agent in grid on a non-blocking cell" are decided by z3 for every pose, action, held item and every content of the cells, on all shapes within the bounds; the history claim follows by induction with C13',
                   'trusts z3, the proxy layer, the LazyRows/SymRng stubs (DESIGN.md §2.4) and the restated blocking table; shapes beyond the bound are outside the verdict', 'DESIGN.md §5 C08')
 
+CLAIMED['C09'] = ('other', 'bounded symbolic execution: multiset conservation, absence of duplicated instances, the frame rule (which cell may change and how) and the exact pick/drop/swap oracle are decided by z3 on every path of every built-in transition function and shipped chain, for every pose, action, held item, draw and cell content within the bounds',
+                  'trusts z3, the proxy layer, the LazyRows/LazyAgent/SymRng stubs; cells never read or written are unchanged by construction of the stub; shapes beyond the bound are outside', 'DESIGN.md §5 C09')
+CLAIMED['C10'] = ('other', 'bounded symbolic execution: for every door and box the step touched, and for the faced cell always, the post-state equals the documented door/key/box rule (status changes iff faced ACTUATE and closed, or locked with a key of the door colour; boxes replaced by their content iff faced ACTUATE; held item unchanged), decided by z3 over all poses, actions, held items and cell contents within the bounds',
+                  'trusts z3, the proxy layer, the LazyRows/LazyAgent stubs; the history-level safety claim is the inductive consequence of this one-step result', 'DESIGN.md §5 C10')
+
 NOT_APPLICABLE = {
     'C19': 'floating-point trigonometric ray kernel (sin/cos/arctan2 via libm/numpy, round-to-nearest of accumulated float steps): no SMT theory for the transcendental part, the only FP-expressible lemma timed out (300 s) on z3 and cvc5, and the remaining inputs form a small finite domain a solver would merely enumerate; see DESIGN.md §5 C19',
 }
